@@ -1,5 +1,6 @@
 import PvModel.Props.C16
 import PvModel.Props.C16Rel
+import PvModel.Props.C16Keys
 #print axioms Pv.C16_ground_plus
 #print axioms Pv.C16_ground_minus
 #print axioms Pv.C16_ground_times
@@ -22,3 +23,5 @@ import PvModel.Props.C16Rel
 #print axioms Pv.C16_ground_answer_sound
 #print axioms Pv.C16_rel_program_sound
 #print axioms Pv.C16_rel_call_sound
+#print axioms Pv.C16_domain_keys_unbound
+#print axioms Pv.C16_run_constraints_tight
